@@ -118,6 +118,40 @@ def nested_cases(rng, n):
     return out
 
 
+def cached_interrupt_history(ctx):
+    """An interrupt declared cache=True ("a previously auto-resolved response is replayed without re-running the
+    handler") on a runner with a cache: pause, resume with one response, resume with ANOTHER response.  Every run must
+    end exactly like the same run on a runner without a cache: the response the caller supplies is what passes the
+    interrupt."""
+    import asyncio
+    import warnings
+    from hypergraph import AsyncRunner, InMemoryCache
+    prog = IR.prog("top", [IR.func("make", ["x"], ["draft"]), IR.interrupt("approval", ["draft"], ["decision"], pause_at=[1, 2, 3, 4], cache=True),
+                           IR.func("finalize", ["decision"], ["result"])])
+    history = [[["x", "in.x"]], [["x", "in.x"], ["decision", "yes"]], [["x", "in.x"], ["decision", "no"]], [["x", "in.x"], ["decision", "yes"]]]
+    outs = {}
+    for label, cache in (("cached", InMemoryCache()), ("uncached", None)):
+        rt = build.Runtime(prog)
+        with warnings.catch_warnings():
+            warnings.simplefilter("ignore")
+            g = build.build_graph(rt, prog)
+            runner = AsyncRunner(cache=cache)
+            res = []
+            for prov in history:
+                rt.reset()
+                r = asyncio.run(runner.run(g, dict(map(tuple, prov)), error_handling="continue"))
+                res.append({"status": r.status.value, "values": {k: IR.canon(v) for k, v in r.values.items()}})
+        outs[label] = res
+    ctx.count()
+    ctx.traces()
+    for k, (a, b) in enumerate(zip(outs["cached"], outs["uncached"])):
+        if a != b:
+            ctx.violation("cached-interrupt-overrides-supplied-response", {"program": prog, "history": history, "run": k, "cached": a, "uncached": b},
+                          f"run {k + 1} of the history (inputs {history[k]}): with a cache {a}, without {b}")
+            return
+    ctx.bump("cached_interrupt_histories")
+
+
 def run(tier, seed):
     ctx = Ctx(PID, tier, seed, "model_checking")
     rng = random.Random(seed)
@@ -241,6 +275,7 @@ def run(tier, seed):
                 ctx.bump(f"chains_with_{len(ch['pauses'])}_pauses")
                 continue
             ctx.violation("unexpected-status", wit, f"{o['status']} {o['err']}")
+    cached_interrupt_history(ctx)
     # nested pause identity
     for prog, base, expect in nested_cases(rng, 6 if thorough else 3):
         j = gen.job(1, prog, base, mode="async")
